@@ -240,6 +240,7 @@ func runControls(dir string) *controlResult {
 		{"EMPTY-SAFE", map[string]bool{"BadConstIndex": true, "GoodConstIndexGuarded": false, "GoodConstIndexByConstruction": false}},
 		{"RANGE-INDEX-BASE", map[string]bool{"BadSubSliceIndex": true, "GoodSubSliceIndex": false}},
 		{"APPEND-RESULT-USED", map[string]bool{"BadAppendResultDropped": true, "GoodAppendResultUsed": false}},
+		{"STALE-LEN", map[string]bool{"(*recBuf).BadStaleLen": true}},
 	} {
 		rule := rules[rc.rule]
 		if rule == nil {
